@@ -257,9 +257,10 @@ theorem parse_complete_up_to_positions (fl : Flags) (toks : List Tok) (t : Docum
 /-! ## text level: lexer ∘ parser -/
 
 /-- `parse(text)` succeeds exactly when the lexer produces a token list that derives from the grammar.
-    `_partial`: this composes the two models; it says nothing yet about WHICH texts `lexAll` tokenises how — that is
-    LANG-1's `lex_sound` / `lex_render` (ignored characters insignificant, lexical grammar), not yet in /verif.  With
-    them, "text accepted ⇔ text derives from the June-2018 grammar" follows by substituting for `lexAll s = .ok toks`. -/
+    `_partial` (name kept, evidence and DESIGN refer to it): this is the TOKEN-level half — the right-hand side still
+    mentions `lexAll`. It excludes nothing about the parser (all 8 flag combinations, executable and type-system
+    documents). The FULL statement, with the lexical specification `Tiles` substituted for `lexAll s = .ok toks`
+    (`lexAll_ok_iff`), is `parse_text_accepts_iff` in `Props/C01_text.lean`; no gap remains between the two. -/
 theorem parse_text_accepts_iff_partial (fl : Flags) (s : Text) :
     (∃ d, parseText fl s = some d) ↔
       ∃ toks d, Lex.lexAll s = .ok toks ∧ wfDocument fl d = true ∧ Matches fl [documentV d] toks := by
@@ -280,7 +281,9 @@ theorem parse_text_accepts_iff_partial (fl : Flags) (s : Text) :
       cases e
       exact ⟨d, by rw [parse_complete_document fl toks d w h]; rfl⟩
 
-/-- and the tree returned for an accepted text is the (unique) well-formed document matched by its tokens -/
+/-- and the tree returned for an accepted text is the (unique) well-formed document matched by its tokens.
+    `_partial` (name kept): token-level half, nothing excluded; the full text-level statement is `parse_text_result`
+    in `Props/C01_text.lean`. -/
 theorem parse_text_result_partial (fl : Flags) (s : Text) (d : Document) :
     parseText fl s = some d ↔
       ∃ toks, Lex.lexAll s = .ok toks ∧ wfDocument fl d = true ∧ Matches fl [documentV d] toks := by
